@@ -276,20 +276,41 @@ pub struct World {
     pub offset: u32,
     pub m: Mirror,
     pub items: Vec<String>,
+    pub dead: bool,
     pub appr: Vec<Vec<Option<u32>>>, // live_until of the last successful approve per (owner, spender)
 }
 
 fn i128_of(e: &Env, v: &Val) -> Option<i128> { i128::try_from_val(e, v).ok() }
 
+/// value printed when a getter of the code under test traps: negative, so both the diff and the
+/// monitors flag it (no balance / allowance / supply is ever negative)
+pub const SENTINEL: i128 = -7_777_777;
+thread_local! { static QUIET: std::cell::Cell<u32> = std::cell::Cell::new(0); }
+/// run a read of the code under test; a trap (panic_with_error / host error) becomes None instead of
+/// aborting the harness
+fn guarded<T>(f: impl FnOnce() -> T) -> Option<T> {
+    QUIET.with(|q| q.set(q.get() + 1));
+    let r = std::panic::catch_unwind(std::panic::AssertUnwindSafe(f)).ok();
+    QUIET.with(|q| q.set(q.get() - 1));
+    r
+}
+fn install_panic_hook() {
+    let default = std::panic::take_hook();
+    std::panic::set_hook(Box::new(move |info| { if QUIET.with(|q| q.get()) == 0 { default(info); } }));
+}
+
 impl World {
     pub fn new(flav: Flav, nu: usize, start: u32, min_temp: u32, max_ttl: u32, offset: u32) -> World {
+        World::new_cfg(flav, nu, start, min_temp, 4096.min(max_ttl), max_ttl, offset)
+    }
+    pub fn new_cfg(flav: Flav, nu: usize, start: u32, min_temp: u32, min_pers: u32, max_ttl: u32, offset: u32) -> World {
         let e = Env::default();
         e.cost_estimate().budget().reset_unlimited();
         e.cost_estimate().disable_resource_limits();
         e.ledger().with_mut(|l| {
             l.sequence_number = start;
             l.min_temp_entry_ttl = min_temp;
-            l.min_persistent_entry_ttl = 4096.min(max_ttl);
+            l.min_persistent_entry_ttl = min_pers;
             l.max_entry_ttl = max_ttl;
         });
         let mut addrs: Vec<Address> = (0..nu).map(|_| Address::generate(&e)).collect();
@@ -323,7 +344,7 @@ impl World {
         addrs.push(acct);
         let sc = addrs.iter().map(|a| xdr::ScAddress::from(a)).collect();
         let nall0 = addrs.len();
-        let mut w = World { e, flav, tok, asset, idv, addrs, sc, nu, start, min_temp, max_ttl, offset, m: Mirror::default(), items: vec![], appr: vec![vec![None; nall0]; nall0] };
+        let mut w = World { e, flav, tok, asset, idv, addrs, sc, nu, start, min_temp, max_ttl, offset, m: Mirror::default(), items: vec![], dead: false, appr: vec![vec![None; nall0]; nall0] };
         w.m.now = start;
         let _ = w.observe();
         w
@@ -425,16 +446,19 @@ impl World {
         let tok = self.tok.clone();
         let addrs = self.addrs.clone();
         let (supply, bal, allow) = e.as_contract(&tok, || {
-            let supply = Base::total_supply(&e);
-            let bal: Vec<i128> = addrs.iter().map(|a| Base::balance(&e, a)).collect();
+            let supply = guarded(|| Base::total_supply(&e)).unwrap_or(SENTINEL);
+            let bal: Vec<i128> = addrs.iter().map(|a| guarded(|| Base::balance(&e, a)).unwrap_or(SENTINEL)).collect();
             let mut allow = vec![];
             for o in addrs.iter() {
                 let mut row = vec![];
                 for s in addrs.iter() {
-                    let d = Base::allowance_data(&e, o, s);
-                    let key = FungibleStorageKey::Allowance(AllowanceKey { owner: o.clone(), spender: s.clone() });
-                    let ttl: i64 = if e.storage().temporary().has(&key) { now as i64 + e.storage().temporary().get_ttl(&key) as i64 } else { -1 };
-                    row.push((d.amount, d.live_until_ledger, ttl));
+                    let r = guarded(|| {
+                        let d = Base::allowance_data(&e, o, s);
+                        let key = FungibleStorageKey::Allowance(AllowanceKey { owner: o.clone(), spender: s.clone() });
+                        let ttl: i64 = if e.storage().temporary().has(&key) { now as i64 + e.storage().temporary().get_ttl(&key) as i64 } else { -1 };
+                        (d.amount, d.live_until_ledger, ttl)
+                    });
+                    row.push(r.unwrap_or((SENTINEL, 0, -1)));
                 }
                 allow.push(row);
             }
@@ -443,31 +467,37 @@ impl World {
         let mut extra: Vec<String> = vec![];
         let mut abal = vec![];
         let mut frozen = vec![];
+        let gz = |r: Option<i128>| -> String { z(r.unwrap_or(SENTINEL)) };
         match self.flav {
             Flav::Base => {}
-            Flav::Allow => e.as_contract(&tok, || for a in addrs.iter() { extra.push(z(stellar_tokens::fungible::allowlist::AllowList::allowed(&e, a) as i128)); }),
-            Flav::Block => e.as_contract(&tok, || for a in addrs.iter() { extra.push(z(stellar_tokens::fungible::blocklist::BlockList::blocked(&e, a) as i128)); }),
+            Flav::Allow => e.as_contract(&tok, || for a in addrs.iter() { extra.push(gz(guarded(|| stellar_tokens::fungible::allowlist::AllowList::allowed(&e, a) as i128))); }),
+            Flav::Block => e.as_contract(&tok, || for a in addrs.iter() { extra.push(gz(guarded(|| stellar_tokens::fungible::blocklist::BlockList::blocked(&e, a) as i128))); }),
             Flav::Votes => e.as_contract(&tok, || {
                 use stellar_governance::votes::{get_delegate, get_total_supply, get_votes, get_voting_units};
-                extra.push(zu(get_total_supply(&e)));
+                let gu = |r: Option<u128>| -> String { match r { Some(v) => zu(v), None => z(SENTINEL) } };
+                extra.push(gu(guarded(|| get_total_supply(&e))));
                 for a in addrs.iter() {
-                    extra.push(zu(get_voting_units(&e, a)));
-                    extra.push(zu(get_votes(&e, a)));
-                    extra.push(match get_delegate(&e, a) { Some(d) => { let sc = xdr::ScAddress::from(&d); match self.sc.iter().position(|x| *x == sc) { Some(i) => format!("{}", i), None => "999".into() } }, None => "(-1)".into() });
+                    extra.push(gu(guarded(|| get_voting_units(&e, a))));
+                    extra.push(gu(guarded(|| get_votes(&e, a))));
+                    extra.push(match guarded(|| get_delegate(&e, a)) {
+                        Some(Some(d)) => { let sc = xdr::ScAddress::from(&d); match self.sc.iter().position(|x| *x == sc) { Some(i) => format!("{}", i), None => "999".into() } }
+                        Some(None) => "(-1)".into(),
+                        None => z(SENTINEL),
+                    });
                 }
             }),
             Flav::Vault => {
                 let asset = self.asset.clone().unwrap();
-                e.as_contract(&asset, || for a in addrs.iter() { let v = Base::balance(&e, a); abal.push(v); extra.push(z(v)); });
+                e.as_contract(&asset, || for a in addrs.iter() { let v = guarded(|| Base::balance(&e, a)).unwrap_or(SENTINEL); abal.push(v); extra.push(z(v)); });
             }
             Flav::Rwa => e.as_contract(&tok, || {
                 use stellar_tokens::rwa::RWA;
-                extra.push(z(stellar_contract_utils::pausable::paused(&e) as i128));
+                extra.push(gz(guarded(|| stellar_contract_utils::pausable::paused(&e) as i128)));
                 for a in addrs.iter() {
-                    let f = RWA::get_frozen_tokens(&e, a);
+                    let f = guarded(|| RWA::get_frozen_tokens(&e, a)).unwrap_or(SENTINEL);
                     frozen.push(f);
                     extra.push(z(f));
-                    extra.push(z(RWA::is_frozen(&e, a) as i128));
+                    extra.push(gz(guarded(|| RWA::is_frozen(&e, a) as i128)));
                 }
             }),
         }
@@ -486,7 +516,27 @@ impl World {
     fn iv(&self, v: i128) -> Val { v.into_val(&self.e) }
 
     /// execute one call on the real contracts; record the trace item; returns ok?
+    /// Execute one call.  Nothing the code under test (or the test host under it) does may abort the
+    /// harness: if executing or observing panics outside the host's own error handling, the call is
+    /// recorded as failed with a sentinel observation (flagged by diff and monitors) and the rest of the
+    /// trace is not executed (the environment may be inconsistent).
     pub fn step(&mut self, out: &mut Out, c: C) -> bool {
+        if self.dead { return false; }
+        let text = c.coq();
+        let r = { let me = &mut *self; let o = &mut *out; guarded(move || me.step_inner(o, c)) };
+        match r {
+            Some(ok) => ok,
+            None => {
+                self.dead = true;
+                out.label("harness/execution-panicked");
+                let now = guarded(|| self.e.ledger().sequence()).unwrap_or(0);
+                self.items.push(format!("({}, Fail, [], {{| o_now := {}; o_supply := {}; o_bal := []; o_allow := []; o_extra := [] |}})", text, now, z(SENTINEL)));
+                false
+            }
+        }
+    }
+
+    fn step_inner(&mut self, out: &mut Out, c: C) -> bool {
         // Test-host limitation (soroban-env-host invocation_metering.rs:1013, test-only code): a
         // persistent entry removed and re-created inside one invocation shrinks its TTL and makes
         // the host's resource metering panic.  FungibleVotes does that for a self-transfer of the
@@ -652,6 +702,11 @@ impl World {
             }
             C::Advance(k) => {
                 let k = *k as i64;
+                if k >= 17_281 { v.push("advance/gap-over-1-day".into()); }
+                if k >= 600_000 { v.push("advance/gap-over-30-days".into()); }
+                if k >= 4_000_000 { v.push("advance/gap-4M".into()); }
+                if k > self.max_ttl as i64 { v.push("advance/gap-over-max-entry-ttl".into()); }
+                if m.allow.iter().any(|row| row.iter().any(|&(am, lu, _)| am > 0 && k >= 17_281 && now + k <= lu as i64)) { v.push("advance/long-gap-within-live-until".into()); }
                 for row in &m.allow { for &(am, lu, ttl) in row {
                     let lu = lu as i64;
                     if am > 0 && now < lu && now + k == lu { v.push("advance/to-last-ledger".into()); }
@@ -665,8 +720,8 @@ impl World {
             C::Mint(_, a) => {
                 if *a < 0 { v.push("mint/negative".into()); }
                 if *a == 0 { v.push("mint/zero".into()); }
-                if *a > 0 && *a > i128::MAX - m.supply { v.push("mint/supply-overflow".into()); }
-                if *a > 0 && *a == i128::MAX - m.supply { v.push("mint/supply-to-max".into()); }
+                if *a > 0 && *a > i128::MAX.saturating_sub(m.supply) { v.push("mint/supply-overflow".into()); }
+                if *a > 0 && *a == i128::MAX.saturating_sub(m.supply) { v.push("mint/supply-to-max".into()); }
             }
             _ => {}
         }
@@ -755,6 +810,7 @@ fn pick_advance(rng: &mut Rng, w: &World) -> u32 {
     let now = w.m.now as i64;
     let mut targets: Vec<i64> = vec![];
     for row in &w.m.allow { for &(am, lu, ttl) in row { if am > 0 { targets.push(lu as i64); } if ttl >= 0 { targets.push(ttl); } } }
+    if rng.chance(1, 9) { return *rng.pick(&LONG_GAPS); }
     let v: i64 = match rng.below(100) {
         0..=29 => rng.range(1, 3),
         30..=69 if !targets.is_empty() => { let t = *rng.pick(&targets); (t - now + rng.range(-1, 1)).max(0) }
@@ -795,7 +851,7 @@ pub fn gen_call(w: &World, rng: &mut Rng, lat: &[i128], mode: Mode) -> C {
                 let recv = if rng.chance(1, 2) { other } else { any(rng) };
                 let au = pick_auths(rng, nu, op, mode);
                 return match rng.below(7) {
-                    0 => C::AssetMint(any(rng), pick_amt(rng, lat, &[1000, i128::MAX - m.abal.iter().sum::<i128>()])),
+                    0 => C::AssetMint(any(rng), pick_amt(rng, lat, &[1000, i128::MAX.saturating_sub(m.abal.iter().fold(0i128, |x, y| x.saturating_add(*y)))])),
                     1 => { let o = user(rng); C::AssetApprove(pick_auths(rng, nu, o, mode), o, user(rng), pick_amt(rng, lat, &[100]), pick_lu(rng, w)) }
                     2 => { let sb = pick_sub(rng, &au); C::VDeposit(au, sb, pick_amt(rng, lat, &[m.abal[other], 100]), recv, other, op) }
                     3 => { let sb = pick_sub(rng, &au); C::VMint(au, sb, pick_amt(rng, lat, &[100]), recv, other, op) }
@@ -807,10 +863,10 @@ pub fn gen_call(w: &World, rng: &mut Rng, lat: &[i128], mode: Mode) -> C {
             Flav::Rwa => {
                 let a = holder(rng);
                 return match rng.below(10) {
-                    0 => C::RForced(a, any(rng), pick_amt(rng, lat, &[m.bal[a], m.bal[a] - m.frozen[a]])),
-                    1 => C::RBurn(a, pick_amt(rng, lat, &[m.bal[a], m.bal[a] - m.frozen[a]])),
+                    0 => C::RForced(a, any(rng), pick_amt(rng, lat, &[m.bal[a], m.bal[a].saturating_sub(m.frozen[a])])),
+                    1 => C::RBurn(a, pick_amt(rng, lat, &[m.bal[a], m.bal[a].saturating_sub(m.frozen[a])])),
                     2 => C::RRecover(a, user(rng)),
-                    3 | 4 => C::RFreeze(a, pick_amt(rng, lat, &[m.bal[a] - m.frozen[a]])),
+                    3 | 4 => C::RFreeze(a, pick_amt(rng, lat, &[m.bal[a].saturating_sub(m.frozen[a])])),
                     5 => C::RUnfreeze(a, pick_amt(rng, lat, &[m.frozen[a]])),
                     6 => C::RSetFrozen(any(rng), rng.chance(1, 2)),
                     7 => C::RPause(rng.chance(1, 2)),
@@ -822,7 +878,7 @@ pub fn gen_call(w: &World, rng: &mut Rng, lat: &[i128], mode: Mode) -> C {
         }
     }
     let k = rng.below(100);
-    let supply_room = i128::MAX - m.supply;
+    let supply_room = i128::MAX.saturating_sub(m.supply);
     match k {
         0..=13 => {
             if w.flav == Flav::Vault { let t = any(rng); return C::AssetMint(t, pick_amt(rng, lat, &[1000, 50])); }
@@ -888,13 +944,14 @@ fn setup_calls(w: &World, rng: &mut Rng) -> Vec<C> {
 
 pub fn random_trace(out: &mut Out, rng: &mut Rng, lat: &[i128], flav: Flav, mode: Mode, len: usize, nu: usize, desc: &str) {
     let start = *rng.pick(&[0u32, 1, 100, 1000, 50_000, 4_000_000]);
-    let min_temp = if rng.chance(3, 4) { 1 } else { 16 };
-    let max_ttl = *rng.pick(&[200u32, 5000, 100_000, 6_312_000]);
+    let (min_temp, min_pers, max_ttl) = *rng.pick(&[(1u32, 200u32, 200u32), (1, 4096, 5000), (16, 4096, 100_000), (1, 4096, 6_312_000),
+                                                    (16, 4096, 6_312_000), (17_280, 2_073_600, 3_110_400)]);
     let offset = if flav == Flav::Vault { rng.below(4) as u32 * rng.below(4) as u32 } else { 0 };
-    let mut w = World::new(flav, nu, start, min_temp, max_ttl, offset);
+    let mut w = World::new_cfg(flav, nu, start, min_temp, min_pers, max_ttl, offset);
     for c in setup_calls(&w, rng) { w.step(out, c); }
     for _ in 0..len {
-        let c = gen_call(&w, rng, lat, mode);
+        if w.dead { break; }
+        let c = match guarded(|| gen_call(&w, rng, lat, mode)) { Some(c) => c, None => { out.label("harness/generator-panicked"); break; } };
         w.step(out, c);
     }
     w.finish(out, desc);
@@ -1027,6 +1084,72 @@ fn scenario_auth_subsets(out: &mut Out, flav: Flav, nu: usize, expiry_pos: i64) 
     w.finish(out, &format!("auth-subsets(expiry_pos={})", expiry_pos));
 }
 
+/// Persistence across long ledger gaps: every kind of stored item (balances, supply, allowances within
+/// their live_until, list flags, voting units / delegation, vault configuration and asset balances, RWA
+/// freezes / pause / recovery table) is written, then ONE Advance of +20 ... +4_000_000 ledgers follows
+/// (nothing is read in between: the observation after the Advance is the first read), then the state is
+/// questioned and used.  Run under two host configurations.
+pub const LONG_GAPS: [u32; 6] = [20, 100, 17_281, 20_000, 600_000, 4_000_000];
+fn scenario_persistence(out: &mut Out, flav: Flav, min_temp: u32, min_pers: u32, max_ttl: u32, descending: bool) {
+    let mut w = World::new_cfg(flav, 3, 1000, min_temp, min_pers, max_ttl, if flav == Flav::Vault { 2 } else { 0 });
+    match flav {
+        Flav::Allow => for i in 0..3 { w.step(out, C::SetListed(i, true)); },
+        Flav::Block => { w.step(out, C::SetListed(2, true)); }
+        _ => {}
+    }
+    if flav == Flav::Vault {
+        for i in 0..3 { w.step(out, C::AssetMint(i, 100_000)); w.step(out, C::VDeposit(vec![i], vec![i], 10_000 * (i as i128 + 1), i, i, i)); }
+        w.step(out, C::AssetMint(3, 555));      // donation to the vault
+    } else { for i in 0..3 { w.step(out, C::Mint(i, 10_000 * (i as i128 + 1))); } }
+    match flav {
+        Flav::Votes => { w.step(out, C::Delegate(vec![0], 0, 1)); w.step(out, C::Delegate(vec![2], 2, 2)); }
+        Flav::Rwa => {
+            w.step(out, C::RFreeze(0, 4_000));
+            w.step(out, C::RSetFrozen(2, true));
+            w.step(out, C::RSetRecovery(1, 0));
+        }
+        _ => {}
+    }
+    let mut gaps: Vec<u32> = LONG_GAPS.to_vec();
+    if descending { gaps.reverse(); }
+    gaps.push(max_ttl + 3);
+    for gap in gaps {
+        // (re-)establish allowances: one at the longest possible live_until, one shorter
+        let now = w.m.now;
+        w.step(out, C::Approve(vec![0], 0, 1, 3_000, now + max_ttl - 1));
+        w.step(out, C::Approve(vec![1], 1, 2, 50, now + 30_000.min(max_ttl - 1)));
+        // ---- the gap: a single Advance, nothing read or written in between ----
+        w.step(out, C::Advance(gap));
+        // ---- question and use the state ----
+        w.step(out, C::QSupply);
+        w.step(out, C::QBalance(2));
+        w.step(out, C::QAllowance(0, 1));
+        w.step(out, C::Transfer(vec![0], 0, 1, None, 7));
+        w.step(out, C::TransferFrom(vec![1], 1, 0, 1, 5));            // the long allowance (if still within live_until)
+        w.step(out, C::TransferFrom(vec![2], 2, 1, 0, 1));            // the shorter one
+        w.step(out, C::Transfer(vec![2], 2, 0, None, 3));             // 2: blocked (BlockList) / frozen (RWA) / plain holder
+        if flav.has_burn() { w.step(out, C::Burn(vec![1], 1, 2)); w.step(out, C::BurnFrom(vec![1], 1, 0, 2)); }
+        match flav {
+            Flav::Allow => { w.step(out, C::Transfer(vec![0], 0, 4, Some(5), 1)); }   // recipient never allowed
+            Flav::Votes => { w.step(out, C::Delegate(vec![1], 1, 0)); w.step(out, C::Delegate(vec![1], 1, 2)); }
+            Flav::Vault => {
+                w.step(out, C::VRedeem(vec![1], 4, 1, 0, 1));          // operator 1 spends 0's share allowance
+                w.step(out, C::VDeposit(vec![2], vec![2], 10, 2, 2, 2));
+                w.step(out, C::VWithdraw(vec![0], 1, 0, 0, 0));
+            }
+            Flav::Rwa => {
+                w.step(out, C::Transfer(vec![0], 0, 1, None, 5_990));  // beyond the free (unfrozen) part
+                w.step(out, C::RForced(2, 1, 1));
+                w.step(out, C::RUnfreeze(0, 1));
+                w.step(out, C::RFreeze(0, 1));
+            }
+            _ => {}
+        }
+    }
+    if flav == Flav::Rwa { w.step(out, C::RRecover(1, 0)); }
+    w.finish(out, &format!("persistence-across-gaps(min_temp={},min_pers={},max_ttl={}{})", min_temp, min_pers, max_ttl, if descending { ",descending" } else { "" }));
+}
+
 /// who may spend whose allowance: reverse allowances, wrong signers, revocation, last ledger
 fn scenario_roles(out: &mut Out, flav: Flav) {
     let mut w = World::new(flav, 3, 700, 1, 5000, 0);
@@ -1079,6 +1202,13 @@ fn scenario_roles(out: &mut Out, flav: Flav) {
     w.step(out, C::Advance(26));                             // 731: first dead ledger
     w.step(out, C::TransferFrom(vec![0], 0, 1, 2, 1));
     w.step(out, C::TransferFrom(vec![0], 0, 1, 2, 0));
+    // the largest approvable amount is spent down like any other ("infinite approval" shortcuts)
+    let now = w.m.now;
+    w.step(out, C::Approve(vec![1], 1, 0, i128::MAX, now + 50));
+    w.step(out, C::TransferFrom(vec![0], 0, 1, 2, 5));
+    w.step(out, C::QAllowance(1, 0));
+    w.step(out, C::Approve(vec![1], 1, 0, i128::MAX - 1, now + 50));
+    w.step(out, C::TransferFrom(vec![0], 0, 1, 2, 5));
     w.finish(out, "roles-and-signers");
 }
 
@@ -1236,7 +1366,14 @@ fn exhaustive_base(out: &mut Out, depth: usize) {
     }
 }
 
+/// last line of defence: a panic in scenario / generator code itself loses that trace, not the run
+fn safely(out: &mut Out, f: impl FnOnce(&mut Out)) {
+    let lost = { let o = &mut *out; guarded(move || f(o)).is_none() };
+    if lost { out.label("harness/trace-lost-to-panic"); }
+}
+
 pub fn run(pid: &str) {
+    install_panic_hook();
     let header = format!("From SC Require Import Lib.Prelude Lib.Int Lib.Host Model.Math Model.Fungible Model.FungibleObs Run.{}.\nOpen Scope Z_scope.", pid);
     let mut out = Out::new(&header, "check_all");
     out.per_shard(if out.cfg.thorough { 600 } else { 260 });
@@ -1250,17 +1387,21 @@ pub fn run(pid: &str) {
 
     // 1. directed scenarios
     for &f in &flavs {
-        if f != Flav::Vault { scenario_overflow(&mut out, f); }
-        scenario_flavour(&mut out, f);
+        if f != Flav::Vault { safely(&mut out, |out| scenario_overflow(out, f)); }
+        safely(&mut out, |out| scenario_flavour(out, f));
     }
-    for &f in &[Flav::Base, Flav::Allow, Flav::Block, Flav::Vault, Flav::Rwa, Flav::Votes] { scenario_roles(&mut out, f); }
+    for &f in &[Flav::Base, Flav::Allow, Flav::Block, Flav::Vault, Flav::Rwa, Flav::Votes] { safely(&mut out, |out| scenario_roles(out, f)); }
+    for &f in &[Flav::Base, Flav::Allow, Flav::Block, Flav::Votes, Flav::Vault, Flav::Rwa] {
+        safely(&mut out, |out| scenario_persistence(out, f, 16, 4096, 6_312_000, false));           // SDK test defaults
+        safely(&mut out, |out| scenario_persistence(out, f, 17_280, 2_073_600, 3_110_400, true));   // network-like settings
+    }
     for &f in &[Flav::Base, Flav::Allow, Flav::Block, Flav::Vault, Flav::Rwa] {
-        scenario_expiry(&mut out, f, 1, 200);
-        if pid == "C02" || thorough { scenario_expiry(&mut out, f, 16, 6_312_000); }
+        safely(&mut out, |out| scenario_expiry(out, f, 1, 200));
+        if pid == "C02" || thorough { safely(&mut out, |out| scenario_expiry(out, f, 16, 6_312_000)); }
     }
     if pid == "C02" || thorough {
         let fl: Vec<Flav> = if thorough { vec![Flav::Base, Flav::Allow, Flav::Block, Flav::Vault, Flav::Votes, Flav::Rwa] } else { vec![Flav::Base, Flav::Vault] };
-        for &f in &fl { for pos in [-1i64, 0, 1] { scenario_auth_subsets(&mut out, f, if thorough { 4 } else { 3 }, pos); } }
+        for &f in &fl { for pos in [-1i64, 0, 1] { safely(&mut out, |out| scenario_auth_subsets(out, f, if thorough { 4 } else { 3 }, pos)); } }
     }
     // 2. random adaptive traces
     let per_flav = if thorough { 120 } else { 22 } * scale;
@@ -1270,10 +1411,10 @@ pub fn run(pid: &str) {
         for i in 0..(per_flav * weight / 2).max(1) {
             let nu = if thorough && i % 3 == 0 { 6 } else { 4 };
             let mut r = rng.fork(i as u64);
-            random_trace(&mut out, &mut r, &lat, f, mode, len, nu, "random");
+            safely(&mut out, |out| random_trace(out, &mut r, &lat, f, mode, len, nu, "random"));
         }
     }
     // 3. exhaustive small scope (thorough only)
-    if thorough && pid == "C01" { exhaustive_base(&mut out, 3); }
+    if thorough && pid == "C01" { safely(&mut out, |out| exhaustive_base(out, 3)); }
     out.finish();
 }
